@@ -22,7 +22,8 @@ SPEC = {
     "rule": ("cases: base molecules (M2, M3, M4, M5, corpus-like sizes) x one rendering per varied dimension: " + ", ".join(DIMENSIONS) +
              ". distinct_nontrivial = distinct (molecule, dimension) pairs whose rendering text differs from the reference rendering"),
     "assumptions": ["headers are printable text (ASCII or UTF-8 letters/symbols, no control or line-separator characters); no trailing blanks after 'M  END' or after a continuation dash (outside the variations the property lists)",
-                    "identity data = element, isotope mass, radical, adjacency; held fixed by construction"],
+                    "identity data = element, isotope mass, radical, adjacency; held fixed by construction",
+                    "'line-ending style' covers LF, CRLF, bare CR and per-line mixes of them (bare CR is rendered by this check only); header line 1 never carries a reserved tag ($$$$, $MDL, $RXN, $RDFILE)"],
     "monitors_required": ["c06_pair_compare"],
     "required_obs": {"quick": ["dimension/" + d for d in DIMENSIONS] + ["cov_corpus_base"]},
     "watchdog_s": {"quick": 900, "thorough": 5400},
